@@ -2289,6 +2289,28 @@ def c18(ctx):
                 p = dict(b)
                 p["stop_k"] = k
                 f.write(json.dumps(p) + "\n")
+    # a malformed / origin-form request pipelined BEHIND good ones: whether the good ones are still answered is left open by
+    # the statement (the close races with their responses), so these runs are judged for crashes, sanitizer reports and
+    # hangs only (memmove with a negative size was found this way)
+    f5 = ctx.path("px_bad_behind.ndjson")
+    with open(f5, "w") as f:
+        for host in ("lit4", "name"):
+            for form in ("origin", "malformed"):
+                for ngood in (1, 2):
+                    for cuts in ([], [[60, 0]], [[87, 0]], [[87, 50000]], [[200, 0]], [[1, 0], [1, 0]]):
+                        for delay in (1000, 2000000):
+                            reqs = [{"host": host, "port": 8080, "method": "POST" if ngood == 2 else "GET"} for _ in range(ngood)]
+                            reqs.append({"host": host, "port": 8080, "form": form})
+                            f.write(json.dumps({"clients": [
+                                {"id": 1, "connect_at": 10, "reqs": reqs, "cuts": cuts, "close_after": True, "close_delay": delay},
+                                {"id": 2, "connect_at": 4000000, "reqs": [{"host": "lit4", "port": 8080}], "cuts": [], "close_after": True,
+                                 "close_delay": 100000}]}) + "\n")
+    res5, _ = vlib.replay(ctx, "record-proxy", f5, env={"VH_WALL_LIMIT": "900"})
+    cases5 = vlib.read_lines(f5, [r["i"] for r in res5 if not r.get("ok")][:20])
+    for r in res5:
+        if not r.get("ok"):
+            ctx.violation("proxy." + r["sig"], r.get("msg", ""), cases5.get(r["i"], {"index": r["i"]}), {"subcmd": "record-proxy"})
+    ctx.evaluations += len(res5)
     ctx.exhaustive = True
     for f in (f2, f3, f4):
         res, total, chunks = vlib.replay(ctx, "record-proxy", f, keep=True, env={"VH_WALL_LIMIT": "900"})
